@@ -86,9 +86,9 @@ Proof.
   destruct (String.eqb m captain_id) eqn:Ec.
   - destruct (wedged S c).
     + intros [= <- <- <-]. exact W.
-    + destruct (as_crew_op S decode_src msg) as [| |op]; try discriminate.
+    + destruct (as_crew_op S decode_src msg) as [| |op0]; try discriminate.
       * intros [= <- <- <-]. exact W.
-      * destruct (op_ordinary S op) eqn:Eo; try discriminate.
+      * set (op := strip_op S op0) in *; destruct (op_ordinary S op) eqn:Eo; try discriminate.
         intros [= <- <- <-]. apply do_op_wf; auto.
   - destruct (String.eqb m timers_id) eqn:Et.
     + intros [= <- <- <-]. destruct (tm_shape msg); exact W.
@@ -148,9 +148,9 @@ Proof.
   unfold SioCrew.present. rewrite eqb_refl'.
   destruct (wedged S c).
   - intros [= <- <- <-]. auto.
-  - destruct (as_crew_op S decode_src msg) as [| |op]; try discriminate.
+  - destruct (as_crew_op S decode_src msg) as [| |op0]; try discriminate.
     + intros [= <- <- <-]. auto.
-    + destruct (op_ordinary S op); try discriminate. intros [= <- <- <-]. auto.
+    + set (op := strip_op S op0) in *; destruct (op_ordinary S op); try discriminate. intros [= <- <- <-]. auto.
 Qed.
 
 (** ** the recipients of one round *)
@@ -188,9 +188,9 @@ Proof.
     { unfold SioCrew.present in Hp.
       destruct (String.eqb m captain_id).
       - destruct (wedged S c); [injection Hp as <- <- <-; congruence|].
-        destruct (as_crew_op S decode_src msg) as [| |op]; try discriminate.
+        destruct (as_crew_op S decode_src msg) as [| |op0]; try discriminate.
         + injection Hp as <- <- <-; congruence.
-        + destruct (op_ordinary S op); try discriminate. injection Hp as <- <- <-; congruence.
+        + set (op := strip_op S op0) in *; destruct (op_ordinary S op); try discriminate. injection Hp as <- <- <-; congruence.
       - destruct (String.eqb m timers_id); [injection Hp as <- <- <-; congruence|].
         destruct (aget m (machines S c)) as [mc|]; [|injection Hp as <- <- <-; congruence].
         destruct (m_src S mc) as [s|]; [|injection Hp as <- <- <-; congruence].
